@@ -426,7 +426,13 @@ func runC20(r *core.Run) *core.Violation {
 	ctx, cancel := context.WithCancel(context.Background())
 	x.cancel = cancel
 	cfg := pmanifest.ServiceConfig{ManifestTimeout: []time.Duration{0, 2 * time.Minute}[r.Choose(2, "knob.watchdog")]}
-	hs := &cluster.SimpleHostnames{Hostnames: map[string]dtypes.DeploymentID{}}
+	var hs cluster.HostnameServiceClient = &cluster.SimpleHostnames{Hostnames: map[string]dtypes.DeploymentID{}}
+	if r.Bool(30, "knob.slow-hostnames") {
+		// the hostname service is another actor of the provider and may take its time: the manager then
+		// sits in the middle of a validation while the chain and the tenant go on
+		hs = &slowHostnames{HostnameServiceClient: hs, x: x}
+		r.Count("probe:slow-hostname-service")
+	}
 	x.svc, err = pmanifest.NewService(ctx, sess, x.bus, hs, cfg)
 	if err != nil {
 		panic(err)
@@ -683,7 +689,7 @@ func (x *c20) step() {
 			r.Logf("step %d: %s -> ok", x.s.Step, c.Key)
 			r.Abstract("ok|" + c.Method)
 		}})
-		if x.faults > 0 {
+		if x.faults > 0 && c.Method != "Hostnames.CanReserve" {
 			st = append(st, stim{3, func() {
 				x.faults--
 				x.s.Complete(c, ErrInjected)
@@ -699,10 +705,13 @@ func (x *c20) step() {
 			outstanding++
 		}
 	}
-	fetching := false
+	fetching, validating := false, false
 	for _, c := range x.s.Pending() {
 		if c.Method == "Query.Deployment" {
 			fetching = true
+		}
+		if c.Method == "Hostnames.CanReserve" {
+			validating = true // a manager sits in the middle of a validation, waiting for the hostname service
 		}
 	}
 	if len(x.submits) < 8 && !x.busy {
@@ -768,6 +777,11 @@ func (x *c20) step() {
 			if fetching {
 				r.Count("probe:version-update-while-fetch-in-flight")
 			}
+			for _, c := range x.s.Pending() {
+				if c.Method == "Hostnames.CanReserve" {
+					r.Count("probe:version-update-while-validation-waits-for-hostnames")
+				}
+			}
 			x.publish(dtypes.NewEventDeploymentUpdated(x.did, x.versions[len(x.versions)-1].hash))
 			r.Ops++
 			r.Mutating++
@@ -777,6 +791,10 @@ func (x *c20) step() {
 		wClose := 1
 		if fetching {
 			wClose = 4
+		}
+		if validating {
+			wClose = 6
+			r.Count("probe:close-possible-while-validation-waits-for-hostnames")
 		}
 		st = append(st, stim{wClose, func() {
 			if fetching {
@@ -1014,6 +1032,25 @@ func (x *c20) wasOnChain(h []byte, from, to int) bool {
 		}
 	}
 	return false
+}
+
+// slowHostnames answers availability questions only when the schedule says so (the answer itself is the
+// wrapped service's).
+type slowHostnames struct {
+	cluster.HostnameServiceClient
+	x *c20
+}
+
+func (h *slowHostnames) CanReserveHostnames(hostnames []string, did dtypes.DeploymentID) <-chan error {
+	ch := make(chan error, 1)
+	go func() {
+		if _, err := h.x.s.Do(nil, 1, "Hostnames.CanReserve", "Hostnames.CanReserve", nil); err != nil {
+			ch <- err
+			return
+		}
+		ch <- <-h.HostnameServiceClient.CanReserveHostnames(hostnames, did)
+	}()
+	return ch
 }
 
 func (x *c20) finish() *core.Violation {
